@@ -28,6 +28,9 @@ structure Cfg where
   /-- d955a3a: the error report is `select { commands <- cmd ; <-proxyCtx.Done() }`
   (before: a bare send, which blocks for ever once `Serve` has returned). -/
   errReportSelectsOnCtx : Bool := true
+  /-- 6d5dbe5: the route test is `len(ProxyNext) > 0` (before: `ProxyNext != nil`, which lets an
+  empty but non-nil slice through to `ProxyNext[len-1]`). -/
+  emptyNextIsNoRoute : Bool := true
   deriving DecidableEq, Repr
 
 def clientBufferSize : Nat := 16
@@ -201,10 +204,14 @@ def deliver (t : Table) (dest : Bytes) (e : Env) : Result :=
       { table := { t1 with conns := t1.conns.set j { c with dropped := c.dropped ++ [e] } },
         action := .drop dest e, dialed := dialed, target := some j }
 
+/-- whether an empty `ProxyNext` still counts as "a route to follow": only before 6d5dbe5, and only
+for a slice that is non-nil -/
+def nnEff (cfg : Cfg) (nn : Bool) : Bool := nn && !cfg.emptyNextIsNoRoute
+
 /-- `Proxy.forwardRpc(source, rpc)` -/
 def forward (cfg : Cfg) (intercept : Header → Option Header) (nn : Bool) (t : Table)
     (source : Bytes) (e : Env) : Result :=
-  match route cfg intercept nn source e with
+  match route cfg intercept (nnEff cfg nn) source e with
   | .ignore => { table := t, action := .ignore }
   | .refused => { table := t, action := .refused }
   | .panic w => { table := t, action := .panic w }
